@@ -381,6 +381,31 @@ func StaticInvalid(f *Filter) bool {
 	return StaticInvalid(f.Pred) || StaticInvalid(f.True) || StaticInvalid(f.False)
 }
 
+// RootInvalid reports an invalid argument on the root node itself, for the node
+// kinds whose argument does not depend on any cell (flags, counts, arity, the
+// row-key regex, the sample probability). The root is evaluated for every row
+// the filter is applied to, with or without cells, so such a filter can never
+// be "lazily valid": C12 ("an invalid predicate makes the request fail") and
+// C05 ("never ignored") demand InvalidArgument.
+func RootInvalid(f *Filter) bool {
+	if f == nil {
+		return false
+	}
+	switch f.K {
+	case "pass", "block":
+		return !f.Flag
+	case "rowkey":
+		return f.Rx == nil
+	case "rowlimit", "rowoffset", "collimit":
+		return f.N < 0
+	case "sample":
+		return !(f.P > 0 && f.P < 1)
+	case "chain", "interleave":
+		return len(f.Subs) < 2
+	}
+	return false
+}
+
 // CountSampleNodes counts row_sample nodes in the tree.
 func CountSampleNodes(f *Filter) int {
 	if f == nil {
